@@ -231,22 +231,27 @@ def _led_written(c, mem):
     return True
 
 
-def _led_channel(ch):
+def _led_channel(ch, relational):
     pos, shift, top = CHANNELS[ch]
+    where = {'R': (0,), 'G': (5,), 'B': (11,)}[ch] if not relational else (0, 11)
 
-    @contract('C13', 'led.write_data.' + ch, LED_FUNCS,
-              clause=LED_CLAUSE + ' (channel %s: all 256 levels and all intensities 0..100 on the first and on the last LED of the ring; '
-                                  'big-endian RRRRRGGG GGGBBBBB word per LED; monotone in the level and in the intensity; the other '
-                                  'channels and LEDs are black and stay 0)' % ch,
-              bounded='LEDs 0 and 11 of 12 carry symbolic values, one colour channel per contract (the channels occupy disjoint bit '
-                      'fields; every position with all channels: led.write_data.palette)', max_paths=50)
+    @contract('C13', 'led.write_data.%s%s' % (ch, '.monotone' if relational else ''), LED_FUNCS,
+              clause=LED_CLAUSE + (' (channel %s: all 256 levels and all intensities 0..100 on LED%s %s of the ring; big-endian '
+                                   'RRRRRGGG GGGBBBBB word per LED; %s; the other channels and LEDs are black and stay 0)'
+                                   % (ch, 's' if relational else '', ' and '.join(map(str, where)),
+                                      'monotone in the level and in the intensity (two LEDs compared)' if relational else
+                                      'black is 0, white at intensity 100 is full scale, the nearest level at intensity 100')),
+              bounded='LED(s) %s of 12 carry symbolic values, one colour channel per contract (the channels occupy disjoint bit '
+                      'fields; every position with all channels: led.write_data.palette)' % (where,), max_paths=50,
+              ob_timeout_ms=120000, branch_timeout_ms=20000)
     def k(c):
         if c.backend == 'sym':
             c.I.cfg['int_float_small_by_solver'] = True
         mh = c.ext('mh')
         mem = c.new(LED + ':LEDDriverMemory', 4, 0x10, 24, mh)
         c.let('mem', mem)
-        for tag, i in (('0', 0), ('1', 11)):
+        tags = [(str(n), i) for n, i in enumerate(where)]
+        for tag, i in tags:
             led = c.snapshot('led' + tag, 'mem.leds[%d]' % i)
             rgb = [0, 0, 0]
             rgb[pos] = c.int('x' + tag, 0, 255)
@@ -256,24 +261,25 @@ def _led_channel(ch):
         c.call((mem, 'write_data'), c.ext('cb'))
         if not _led_written(c, mem):
             return
-        c.ensure('other-leds-black', 'all(data[i] == 0 for i in range(2, 22))')
-        for tag, i in (('0', 0), ('1', 11)):
+        c.ensure('other-leds-black', 'all(data[2 * i] == 0 and data[2 * i + 1] == 0 for i in range(12) if i not in %r)' % (where,))
+        for tag, i in tags:
             c.snapshot('word' + tag, 'data[%d] * 256 + data[%d]' % (2 * i, 2 * i + 1))
-            X = c.snapshot('X' + tag, 'word%s >> %d' % (tag, shift)) if False else None
             c.snapshot('X' + tag, '(word%s >> %d) & %d' % (tag, shift, top))
             c.ensure('led%s-other-channels-stay-0' % tag, 'word%s == X%s << %d' % (tag, tag, shift))
-            c.ensure('led%s-black-is-0' % tag, 'implies(x%s == 0, X%s == 0)' % (tag, tag))
-            c.ensure('led%s-intensity-0-is-0' % tag, 'implies(it%s == 0, X%s == 0)' % (tag, tag))
-            c.ensure('led%s-white-is-full-scale-at-full-intensity' % tag, 'implies(x%s == 255 and it%s == 100, X%s == %d)' % (tag, tag, tag, top))
-            c.ensure('led%s-nearest-level-at-full-intensity' % tag, 'implies(it%s == 100, 2 * abs(X%s * 255 - x%s * %d) <= 255)' % (tag, tag, tag, top))
-        for a, b in (('0', '1'), ('1', '0')):
-            c.ensure('monotone-in-level-%s-%s' % (a, b), 'implies(it%s == it%s and x%s <= x%s, X%s <= X%s)' % (a, b, a, b, a, b))
-            c.ensure('monotone-in-intensity-%s-%s' % (a, b), 'implies(x%s == x%s and it%s <= it%s, X%s <= X%s)' % (a, b, a, b, a, b))
+            if not relational:
+                c.ensure('led%s-black-is-0' % tag, 'implies(x%s == 0, X%s == 0)' % (tag, tag))
+                c.ensure('led%s-intensity-0-is-0' % tag, 'implies(it%s == 0, X%s == 0)' % (tag, tag))
+                c.ensure('led%s-white-is-full-scale-at-full-intensity' % tag, 'implies(x%s == 255 and it%s == 100, X%s == %d)' % (tag, tag, tag, top))
+                c.ensure('led%s-nearest-level-at-full-intensity' % tag, 'implies(it%s == 100, 2 * abs(X%s * 255 - x%s * %d) <= 255)' % (tag, tag, tag, top))
+        if relational:
+            c.ensure('monotone-in-level', 'implies(it0 == it1 and x0 <= x1, X0 <= X1)')
+            c.ensure('monotone-in-intensity', 'implies(x0 == x1 and it0 <= it1, X0 <= X1)')
     return k
 
 
 for _ch in 'RGB':
-    _led_channel(_ch)
+    _led_channel(_ch, False)
+    _led_channel(_ch, True)
 
 
 @contract('C13', 'led.write_data.palette', LED_FUNCS,
@@ -494,7 +500,6 @@ def lh_angle_bad(c):
 
 
 # ------------------------------------------------------------------------- (a) quaternion compression (mode R)
-QUAT_PRE = 'all(-1000 <= v <= 1000 for v in q) and any(v >= 0.001 or v <= -0.001 for v in q)'
 
 
 
